@@ -1,5 +1,5 @@
 import MlModel.Lemmas.Rates
-import MlModel.Lemmas.ConfusionEncode
+import MlModel.Lemmas.ConfusionTopK
 /-!
 # C07 (classification family) — metric values equal their textbook definitions
 
@@ -585,5 +585,36 @@ example :
   rfl
 
 end counts
+
+/-! ## C. top-k -/
+
+section topk
+open MlModel.Agg.Confusion
+
+/-- **top-k** (`_apply_vocab_at_k` + `_topk_confusion_matrix`, multi-output rankings, explicit
+vocabulary): exactly one confusion matrix per `k ∈ k_list` with `1 ≤ k ≤ max k_list`, in increasing `k`,
+and the one for `k` is the confusion matrix of the prediction prefixes `y_pred[i][:k]` — no off-by-one.
+(That the positions follow increasing `k` rather than the order of `k_list` is finding FC4.) -/
+theorem C07_classification_topk (keys : List Label) (hn : keys.Nodup) (avg : Average) (hb : avg ≠ .binary)
+    (axis : Option Nat) (kList : List Int) (td : List (List Bool)) (rows : List (List Label))
+    (hl : td.length = rows.length) (h : ∀ r ∈ rows, ∀ e ∈ r, e ∈ keys) (n : Nat) :
+    topkLoop keys.zipIdx true avg axis kList td rows n 0
+        (rows.map fun _ => List.replicate keys.zipIdx.length false)
+      = .ok (((List.range' 1 n).filter (kMember kList)).map fun k =>
+          (k, countsOf axis keys.length td (rows.map fun r => mark keys (r.take k)))) := by
+  have h0 : (rows.map fun _ => List.replicate keys.zipIdx.length false)
+      = rows.map fun r => mark keys (r.take 0) := by
+    apply List.map_congr_left; intro r _; simp [mark, List.map_const']
+  rw [h0]
+  exact topkLoop_closed keys hn avg hb axis kList td rows hl h n 0
+
+/-- test (`example`-grade, by evaluation): precision@1, precision@2 pooled over a 2-example batch -/
+example :
+    topkCM (some [(0, 0), (1, 1), (2, 2)]) true .micro [1, 2]
+        { yTrue := .nested [[0], [1]], yPred := .nested [[1, 0], [1]] }
+      = .ok { tp := .v [1, 2], tn := .v [3, 3], fp := .v [1, 1], fn := .v [1, 0] } := by
+  rfl
+
+end topk
 
 end MlModel.C07
